@@ -76,7 +76,24 @@ func init() {
 		reqs := fsRequests(quick)
 		r.Rule = fmt.Sprintf("part 1: every transition of the C01 universe (%d states x %d requests) and the per-state conditional / failing-body requests of C02; part 1b: a subset of those states x every request with the served root configured in 4 further spellings (trailing slash, /., //, /./); part 2: the hostile-path alphabet of C03; part 3: every single injected OS failure (8 errno values, wrapped as package os wraps them, real absolute paths inside) at every OS call of every request of a reduced alphabet; non-trivial = the response is an error response (>= 400), where error text is sent; distinct by (tree, request[, fault])", len(states), len(reqs))
 		r.Explanation = "model-free oracle over the explicit-state exploration: every header value and body of every response is scanned for the served root's absolute path in its configured (symlinked) and resolved spelling and for every >=2-segment prefix"
-		exploreFSx(r, states, reqs, c02Extra(quick), func(v *fsVisit) {
+		// names and paths longer than the operating system takes (every method, and as COPY / MOVE destination)
+		long := strings.Repeat("n", 300)
+		deep := strings.Repeat("/"+strings.Repeat("d", 200), 22)
+		c02x := c02Extra(quick)
+		extra := func(t harness.Tree, probe map[string]fileProbe) []harness.Req {
+			out := c02x(t, probe)
+			for _, p := range []string{"/" + long, "/a/" + long, deep, "/" + long + "/x"} {
+				for _, m := range []string{"GET", "HEAD", "DELETE", "MKCOL", "OPTIONS", "PROPFIND"} {
+					out = append(out, harness.Req{Method: m, Path: p})
+				}
+				out = append(out, harness.Req{Method: "PUT", Path: p, Body: "x"})
+				for _, m := range []string{"COPY", "MOVE"} {
+					out = append(out, harness.Req{Method: m, Path: "/a", Header: map[string]string{"Destination": p}}, harness.Req{Method: m, Path: p, Header: map[string]string{"Destination": "/zz"}})
+				}
+			}
+			return out
+		}
+		exploreFSx(r, states, reqs, extra, func(v *fsVisit) {
 			c17Visit(v)
 			if v.Resp.Status >= 500 && v.Index%13 == 1 {
 				v.S.Sample(map[string]interface{}{"state": v.State.Canon(), "request": v.Req.String(), "status": v.Resp.Status, "body": trunc(string(v.Resp.Body), 120)})
